@@ -441,8 +441,6 @@ class Inliner:
                 else:
                     caller_names.add(name)
             if kind == 'assign':
-                if len(st.targets) != 1:
-                    raise _Fail('multiple targets')
                 tname = '_inl%d_ret' % self.counter
             elif kind == 'return':
                 tname = '_inl%d_ret' % self.counter
@@ -457,8 +455,10 @@ class Inliner:
             rs = [sub.visit(s) for s in rs]
             out = pre + rs
             if kind == 'assign':
-                out.append(ast.Assign(targets=st.targets,
-                                      value=ast.Name(id=tname, ctx=ast.Load())))
+                # a chained assignment binds its targets left to right
+                for t_ in st.targets:
+                    out.append(ast.Assign(targets=[t_],
+                                          value=ast.Name(id=tname, ctx=ast.Load())))
             elif kind == 'return':
                 out.append(ast.Return(value=ast.Name(id=tname, ctx=ast.Load())))
             for s in out:
